@@ -41,7 +41,7 @@ ASSUMPTIONS = [
 ]
 REACH = {t: ["beh_now", "beh_delay", "beh_late", "beh_never", "beh_twice", "beh_cb_before", "beh_cb_after",
              "beh_foreign", "beh_sendfail", "cancel_queued", "cancel_sending", "cancel_waiting",
-             "three_classes_queued", "sequence_wrap", "unsolicited_to_two_callbacks", "priority_overtake",
+             "three_classes_queued", "sequence_wrap", "unsolicited_to_two_callbacks", "priority_overtake", "commands_in_second_session",
              "timeout_observed", "probe_ok"] for t in ("quick", "thorough")}
 SHARD_TIMEOUT = {"quick": 900, "thorough": 3600}
 
@@ -134,6 +134,23 @@ def run_case(case, V, acc=None):
         ncp = Ncp()
         current = [None]
         real_send = st.gw.send_data
+        if case.get("restart"):
+            # the same commands were already used on this EZSP object before the NCP was restarted (stop,
+            # start-up reset, version negotiated anew): what is judged below runs on the
+            # protocol handler of the second session
+            for c_ in callers:
+                try:
+                    txv_, _ = valuegen.gen_schema(C[c_["name"]][1], rnd, "random")
+                    await asyncio.wait_for(e.EZSP.__getattr__(ez, c_["name"])(*txv_), 30)
+                except BaseException:  # noqa: BLE001 - the warm-up is not judged
+                    pass
+            try:
+                ez.stop_ezsp()
+                await ez.startup_reset()
+                tr.append(("restarted", clock()))
+            except BaseException as ex:  # noqa: BLE001
+                import traceback
+                tr.append(("setup_fail", clock(), repr(ex) + " @ " + " <- ".join(f"{f.name}:{f.lineno}" for f in traceback.extract_tb(ex.__traceback__)[-5:])))
 
         async def send_data(data):
             tk = asyncio.current_task()
@@ -385,6 +402,11 @@ def check_history(case, tr, info):
             if not any(f[0] == "frame" and abs(f[1] - ev[1]) < 1e-9 and f[5] is not None and list(f[5]) == ev[4] for f in tr[:idx]):
                 bad.append(("C06/unsolicited/spurious-callback", f"callback {ev[3]} {ev[4]!r} has no originating frame"))
                 break
+    for ev in tr:
+        if ev[0] == "setup_fail":
+            bad.append(("C06/setup/restart-failed", f"restarting the NCP on the same EZSP object failed: {ev[2]}"))
+        if ev[0] == "restarted":
+            facts.add("commands_in_second_session")
     if any(ev[0] == "probe_fail" for ev in tr):
         bad.append(("C06/leak/probe-command-failed", f"a fresh command after quiescence failed: {[e for e in tr if e[0] == 'probe_fail']}"))
     elif any(ev[0] == "probe_ok" for ev in tr):
@@ -462,6 +484,8 @@ def gen_cases(tier, seed, V):
                                 offset=rnd.choice([0.0, 0.0, 0.0, 0.1, 0.25, 0.7, 5.0]),
                                 cancel=rnd.choice([None, None, None, "queued", "sending", "waiting"])))
         cases.append({"callers": callers, "seed": rnd.randrange(10 ** 6)})
+        if _ % 12 == 0:
+            cases[-1]["restart"] = True
     # sequence wrap: many commands through 3 classes
     for w in range(1 if tier == "quick" else 4):
         callers = []
